@@ -113,8 +113,8 @@ func ruleQueueFifo(w *World, r *RuleResult) {
 	// Pop
 	pop, _ := w.Paths(c.a.Pop)
 	for _, p := range pop {
-		if p.End != "ret" || len(p.Ret) != 2 || p.Ret[1].Op != "nil" {
-			continue
+		if p.End != "ret" || len(p.Ret) != 2 || !(p.Ret[1].Op == "nil" || p.Ret[1].IsConstVal(1)) {
+			continue // the success return: nil error, or ok == true
 		}
 		idx, ok := isBuf(p.Ret[0])
 		cur := ""
